@@ -73,7 +73,7 @@ def programs(tier: str) -> tuple[list[dict], dict]:
                              Variants=True, MinOps=2, Exhaustive=False)
     else:
         lib = dp.library(("class", "frozenset")) + dp.library(("str", "tuple"))[::3]
-        bs, st = dp.generate("sim17", simulate=60, MaxRanks=4, MaxOps=6, NTags=3,
+        bs, st = dp.generate("sim17", simulate=25, MaxRanks=4, MaxOps=6, NTags=3,
                              Variants=True, MinOps=2, Exhaustive=False)
     stats["distcomm"] = st
     seen = set()
